@@ -94,6 +94,7 @@ def focused(tier):
                    K=2, features=["cct"]))
     out.append(tandem("block upstream c=2", fam, c=(2, 1), caps=(None, 0), K=K, features=["blocking"]))
     out.append(tandem("block downstream c=2", fam, c=(1, 2), caps=(None, 1), K=K, features=["blocking"]))
+    out += mixed_tandem(tier)
     return out
 
 
